@@ -140,7 +140,10 @@ func init() {
 			}
 			st.Pos, st.End = a, b
 		case "badrange":
-			switch g.R.Intn(3) {
+			switch g.R.Intn(4) {
+			case 3:
+				// start beyond the end of the array, end inside it
+				st.Pos, st.End = n+1+uint64(g.R.Intn(3)), uint64(g.R.Intn(int(n)+1))
 			case 0:
 				st.Pos, st.End = n+1+uint64(g.R.Intn(3)), n+1+uint64(g.R.Intn(3))+3
 			case 1:
@@ -258,7 +261,12 @@ func (w *World) iterArray(st *Step, c *MCont, a *atree.Array) *Violation {
 		}
 		w.Stats.Inc("reject.range")
 		for _, er := range []error{e1, e2} {
-			if msg := checkErr(er, wantErr); msg != "" {
+			msg := checkErr(er, wantErr)
+			if msg != "" && s > n && e <= n && checkErr(er, wantInvalidSlice) == "" {
+				// start out of bounds AND start > end: both causes are true of this request; either name is accepted
+				msg = ""
+			}
+			if msg != "" {
 				return w.viol("iter.range-error", "%s [%d:%d] on %d elements: %s", what, s, e, n, msg)
 			}
 		}
